@@ -349,6 +349,10 @@ def gen(rng, tier):
             v = [0.0, 0.0, rng.choice([3.0, -0.5])]
         yield {"fn": "cartesianToSpherical", "args": v, "wrap360": rng.random() < 0.5, "batch": batch(3), "special": sp}
         yield {"fn": "toDirectionCosines", "args": [rng.uniform(-3, 3), rng.uniform(-3, 3), rng.choice([1.0, 1.0, rng.uniform(-2, 2)])], "batch": batch(3)}
+        # near-grazing directions: |x|, |y| large against the unit third component
+        steep = [rng.choice([-1, 1]) * 10 ** rng.uniform(2, 7), rng.choice([-1, 1]) * 10 ** rng.uniform(-2, 7), 1.0]
+        rng.shuffle(steep[:2])
+        yield {"fn": "toDirectionCosines", "args": steep, "batch": batch(3), "special": "steep"}
         yield {"fn": "fromDirectionCosines", "args": [rng.uniform(-1, 1), rng.uniform(-1, 1), rng.uniform(0.1, 1), rng.uniform(0.5, 4)], "batch": batch(4, 0.1, 1.0)}
         d, m = rng.choice([20000.0, 95000.0, 3.0e5]), float(rng.choice([1, -1, 2, -2, 3]))
         yield {"fn": "wavelengthFromGrating", "args": [rng.uniform(-0.5, 0.5), rng.uniform(-0.5, 0.5)], "d": d, "m": m, "batch": batch(2, -0.5, 0.5)}
